@@ -42,6 +42,10 @@ CHECKS = {
             "fault enumeration replayed on the compiled tree + TLC trace validation against LifeTrace.tla", "§4 C14"),
     "C15": ("hgv_engine", "Dataflow.tla specifies captured errors (the thrower writes nothing, one error tick carrying the message, nothing else changes) and is model-checked per program; chains with a thrower are run with per-node capture, try_except around a sub-graph (thrower at child index 0/1/2) and capture inside a nested child; all streams and error ticks must equal the specification and EngineTrace validates C15 clauses per event.",
             "TLA+ model checking (Dataflow) + spec->code replay + TLC trace validation (EngineTrace C15 clauses)", "§4 C15"),
+    "C16": ("hgv_rt", "PushQueue.tla (level B: try_send / send_blocking split into their critical sections - control enter, stop check, policy try_send under the queue mutex, mark_push_update_pending iff the queue was empty, leave; consumer reset / try_pop / re-mark; stop = begin_close, accepting := false, clear, notify, quiescence) is model-checked exhaustively by TLC against the level-A invariants (delivered is a prefix of accepted, capacity bound at every step, refusals only when full or stopped, nothing accepted after stop) and, under weak fairness, eventual delivery; its interleavings are replayed into the real code at critical-section granularity through guarded pre-lock gates (HGRAPH_VERIF hooks), free-running multi-producer stress runs with seeded delays are recorded at the linearization points (sequence numbers taken under the protecting mutex), and every trace is validated by the level-A trace specification PushTrace with TLC.",
+            "TLC exhaustive model checking of PushQueue.tla + schedule replay through hook gates + TLC trace validation (PushTrace) of free-running traces", "§4 C16"),
+    "C17": ("hgv_rt", "RealTime.tla (level B: advance_realtime split into read wall / lock / predicate / wait slice / notified | timeout | spurious / compute next = min(target, max(wall, previous + 1)) / drain bound; mark-push and request-stop as lock-set-unlock-notify; an environment action moving the wall clock arbitrarily; logical timers and wall-clock alarms) is model-checked exhaustively against the level-A invariants (time strictly increases, a cycle at T only once the wall clock reached T or on the previous+1 floor, no due wake-up dropped except by the sanctioned drain cut, stop ends the run after the current cycle, no lost notification) and liveness under fairness; model behaviours and interleavings are replayed into the real executor (wall-clock offset hook, gates), free-running runs are recorded, and every trace is validated by RtTrace.tla with TLC; only lower bounds on wall time are asserted.",
+            "TLC exhaustive model checking of RealTime.tla + schedule / behaviour replay through hooks + TLC trace validation (RtTrace)", "§4 C17"),
     "C18": ("hgv_engine", "NodeSched.tla - a level-B model of NodeScheduler + the graph's per-node slot + the post-evaluation re-arm rule, driven by an arbitrary user program (TLC chooses the scheduler operations of every activation and the input tick times) - is model-checked exhaustively against the level-A invariants TagsAgree / NoMissedWake / NotEarly / SlotCovers; its simulated behaviours and op-dense random scripts are replayed into a scripted scheduler node on the compiled tree (alone, in a nested child, two per graph); every recorded trace (each operation, every query answer, every activation) is validated by the level-A trace specification SchedTrace with TLC; activation times are additionally compared with the level-B prediction (DRIFT only).",
             "TLC exhaustive model checking of NodeSched.tla + behaviour replay + TLC trace validation against SchedTrace.tla", "§4 C18"),
     "C19": ("hgv_resolve", "Resolution.tla: the scenario (overload family x argument tuple x registration order) is TLC state; level A (matching under one substitution, output = substitution, no match -> error, shared best rank -> ambiguity error, unique minimum rank, same outcome in every registration order) is checked as invariants against level B (sequential matcher, the documented rank formula, stable sort + tie test) on every enumerated scenario; each scenario is replayed into the real OperatorRegistry with overloads built at run time from the tree's own pattern / rank API and every recorded resolution (selected label or error class, per-candidate ranks, bindings, output type, all orders of the family) is validated by ResolutionTrace.tla (level A, 13 clauses); rank-formula disagreements are DRIFT.",
@@ -50,7 +54,8 @@ CHECKS = {
             "differential replay on the compiled tree + TLC trace validation against RecordReplayTrace.tla / Delta.tla; Collections.tla model-checked as generator", "§4 C20"),
 }
 
-ENGINES = {"hgv_coll": ("/verif/harness/coll", "time-series data-layer driver: scripted writer on 9 output shapes through the real mutation API, passive probes every cycle, capture/apply shadow, record -> replay second graph"),
+ENGINES = {"hgv_rt": ("/verif/harness/rt", "real-time driver: push sources fed by producer threads, stopper thread, controllable wall clock, hook handler recording linearization points, schedule-replay gates"),
+           "hgv_coll": ("/verif/harness/coll", "time-series data-layer driver: scripted writer on 9 output shapes through the real mutation API, passive probes every cycle, capture/apply shadow, record -> replay second graph"),
            "hgv_resolve": ("/verif/harness/resolve", "operator-resolution driver: run-time constructed overload families registered in a given order, resolve, report selection / ranks / bindings / output type"),
            "hgv_iso": ("/verif/harness/iso", "several builders / executors in one process on several threads, gated at executor-phase granularity by the public phase_runner"),
            "hgv_engine": ("/verif/harness/engine", "native interpreter-style driver linked against the compiled working tree; scenarios in, ndjson traces out")}
